@@ -216,6 +216,27 @@ def _replay_group(args):
     return out
 
 
+def class_names(printed):
+    """names of every dataclass term occurring in the type position of the emitted records"""
+    import re
+    names = set()
+    for rec in printed:
+        if len(rec) > 1 and isinstance(rec[1], list):
+            names.update(re.findall(r'\["dc", "([^"]+)"', json.dumps(rec[1])))
+    return names
+
+
+def assert_families(printed, expected, label, rep=None):
+    """vacuity guard: every family a model announces must actually be explored -- a family is identified by a class name that
+    only it uses.  A missing one is a machinery failure (a filter / constraint silently removed it), never a verdict."""
+    seen = class_names(printed)
+    missing = sorted(set(expected) - seen)
+    if rep is not None:
+        rep.selftests.setdefault("families_explored", {})[label] = sorted(set(expected) & seen)
+    if missing:
+        raise tlc.MachineryError(f"{label}: announced families never explored (vacuous): {missing}")
+
+
 def replay(printed, procs=16):
     groups: dict[str, list] = {}
     types: dict[str, list] = {}
